@@ -1,2 +1,132 @@
--- stub: replaced when the area is built
-def main : IO Unit := pure ()
+import Nstd.Common.Basic
+import Nstd.Xml.Model
+/-
+  Line protocol of the Xml area (C16).  One op per line, one observation line per op.
+    reset                 -> ready
+    parse <hex>           -> ok <dump> | fail <line> <col> <msg>
+    tostr <tree>          -> str <hex>            (Element::toString)
+    rt <tree>             -> ok <dump> | fail ... (parse (Xml::toString tree))
+    esc <0|1> <hex>       -> str <hex>            (escapeString, text / attribute value)
+    unesc <hex>           -> str <hex>
+  dump / tree:  elem := '(' HEX(name) ['#' line '.' col] { '@' HEX(key) '=' HEX(val) } { ',' child } ')'
+                child := elem | 't' HEX(text)
+-/
+open Nstd.Common
+namespace Nstd.Xml
+
+def hx (bs : Bytes) : String := String.join (bs.map (fun b => byteHex b.toNat))
+
+def hexTok (bs : Bytes) : String := if bs.isEmpty then "-" else hx bs
+
+def msgStr : Msg → String
+  | .eof => "eof" | .newline => "newline" | .name => "name" | .lt => "lt" | .tagname => "tagname"
+  | .eq => "eq" | .string => "string" | .endtag => "endtag" | .gt => "gt"
+
+mutual
+  partial def dumpElem : Elem → String
+    | .mk name line col attrs content =>
+      "(" ++ hx name ++ s!"#{line}.{col}" ++
+        String.join (attrs.map (fun kv => "@" ++ hx kv.1 ++ "=" ++ hx kv.2)) ++ dumpContent content ++ ")"
+  partial def dumpContent : Content → String
+    | .nil => ""
+    | .text s rest => ",t" ++ hx s ++ dumpContent rest
+    | .elem e rest => "," ++ dumpElem e ++ dumpContent rest
+end
+
+/-- leading hex digits of the character list as bytes -/
+partial def takeHex (cs : List Char) (acc : Bytes) : Option (Bytes × List Char) :=
+  match cs with
+  | a :: b :: rest =>
+    match hexVal a, hexVal b with
+    | some x, some y => takeHex rest (acc ++ [(x * 16 + y).toUInt8])
+    | some _, none => none
+    | _, _ => some (acc, cs)
+  | [a] => if (hexVal a).isSome then none else some (acc, cs)
+  | [] => some (acc, cs)
+
+partial def skipPosNote (cs : List Char) : List Char :=
+  match cs with
+  | '#' :: rest => rest.dropWhile (fun c => c.isDigit || c == '.')
+  | _ => cs
+
+mutual
+  partial def treeElem (cs : List Char) : Option (Elem × List Char) :=
+    match cs with
+    | '(' :: rest => do
+      let (name, r1) ← takeHex rest []
+      let r2 := skipPosNote r1
+      let (attrs, r3) ← treeAttrs r2 []
+      let (content, r4) ← treeContent r3
+      match r4 with
+      | ')' :: r5 => some (.mk name 0 0 attrs content, r5)
+      | _ => none
+    | _ => none
+  partial def treeAttrs (cs : List Char) (acc : List (Bytes × Bytes)) : Option (List (Bytes × Bytes) × List Char) :=
+    match cs with
+    | '@' :: rest => do
+      let (k, r1) ← takeHex rest []
+      match r1 with
+      | '=' :: r2 => do
+        let (v, r3) ← takeHex r2 []
+        treeAttrs r3 (attrSet acc k v)
+      | _ => none
+    | _ => some (acc, cs)
+  partial def treeContent (cs : List Char) : Option (Content × List Char) :=
+    match cs with
+    | ',' :: 't' :: rest => do
+      let (s, r1) ← takeHex rest []
+      let (c, r2) ← treeContent r1
+      some (.text s c, r2)
+    | ',' :: rest => do
+      let (e, r1) ← treeElem rest
+      let (c, r2) ← treeContent r1
+      some (.elem e c, r2)
+    | _ => some (.nil, cs)
+end
+
+def parseTree (s : String) : Option Elem :=
+  match treeElem s.toList with
+  | some (e, []) => some e
+  | _ => none
+
+def bytesOfHex (s : String) : Option Bytes := (fromHex s).map (fun l => l.map Nat.toUInt8)
+
+def showParse (r : Res Elem) : String :=
+  match r with
+  | .ok e => "ok " ++ dumpElem e
+  | .err l c m => s!"fail {l} {c} {msgStr m}"
+  | .oob => "FAULT oob"
+  | .fuel => "FAULT fuel"
+
+def stepLine (_ : Unit) (ws : List String) : Unit × String :=
+  match ws with
+  | ["reset"] => ((), "ready")
+  | ["parse", h] =>
+    match bytesOfHex h with
+    | some bs => ((), showParse (parse bs))
+    | none => ((), "bad-op")
+  | ["tostr", tr] =>
+    match parseTree tr with
+    | some e => ((), "str " ++ hexTok e.toStr)
+    | none => ((), "bad-op")
+  | ["rt", tr] =>
+    match parseTree tr with
+    | some e => ((), showParse (parse (docToStr e)))
+    | none => ((), "bad-op")
+  | ["esc", m, h] =>
+    match bytesOfHex h with
+    | some bs =>
+      if bs.contains 0 then ((), "bad-op")
+      else if m == "0" then ((), "str " ++ hexTok (escape false bs))
+      else if m == "1" then ((), "str " ++ hexTok (escape true bs))
+      else ((), "bad-op")
+    | none => ((), "bad-op")
+  | ["unesc", h] =>
+    match bytesOfHex h with
+    | some bs => if bs.contains 0 then ((), "bad-op") else ((), "str " ++ hexTok (unescape bs))
+    | none => ((), "bad-op")
+  | _ => ((), "bad-op")
+
+end Nstd.Xml
+
+def main : IO Unit := Nstd.Common.ioLoop () Nstd.Xml.stepLine
